@@ -16,7 +16,7 @@ LEVEL_TEXT = (
     'offers Drop only on a lossy network and Deliver only to existing actors, and at most the head of '
     'each ordered flow. Agreement of len()/iter_all() counts is arithmetic and is not decided.')
 
-FLOORS = {'C07-R1': 4, 'C07-R2': 7, 'C07-R3': 6, 'C07-R4': 4, 'C07-R5': 4}
+FLOORS = {'C07-R1': 4, 'C07-R2': 7, 'C07-R3': 6, 'C07-R4': 4, 'C07-R5': 4, 'C07-R6': 3, 'C07-R7': 5}
 
 NET = 'actor::network::Network::<Msg>::'
 ORDER_BREAKING = ('VecDeque::swap_remove_back', 'VecDeque::swap_remove_front', 'Vec::swap_remove',
@@ -94,6 +94,8 @@ def r1_iterator_progress(ctx, F):
         prog = progress_blocks(b)
         nones = set(i for (i, si, st) in b.assigns(lambda st: st['lhs']['l'] == 0 and not st['lhs']['p'] and
                                                    st['rv']['k'] == 'agg' and st['rv'].get('variant') == 'None'))
+        # `expr?` on an Option returns None through FromResidual::from_residual
+        nones |= set(c.bb for c in b.calls_to('FromResidual::from_residual') if c.dest['l'] == 0 and not c.dest['p'])
         r = b.reach([0], cut_blocks=prog | nones)
         stuck = any(x in r for x in b.returns) and 0 not in (prog | nones)
         if 0 in prog or 0 in nones:
@@ -441,6 +443,221 @@ def run(ctx):
     ctx.doc('C07-R5', 'Network::new_*: every element of `envelopes` is handed to Network::send (or to a constructor that does)')
     with ctx.rule('C07-R5', 'constructors'):
         r5_initial_contents(ctx, F)
+    ctx.doc('C07-R6', 'NetworkIter over a non-duplicating network: an envelope held n times is yielded 1 + (n - 1) times '
+                      '(cursor holds count - 1, only when count > 1, counted down by one to zero)')
+    with ctx.rule('C07-R6', 'iter_all multiplicity'):
+        r6_iter_multiplicity(ctx, F)
+    ctx.doc('C07-R7', 'next_state hands `&mut network` only to on_deliver (Deliver arm) and on_drop (Drop arm); '
+                      'process_commands only to send; no arm overwrites the network')
+    with ctx.rule('C07-R7', 'who changes the network'):
+        r7_who_changes_the_network(ctx, F)
+
+
+def r6_iter_multiplicity(ctx, F, rule='C07-R6'):
+    """iter_all over a non-duplicating network yields an envelope held n times exactly n times. The iterator
+    keeps a cursor (envelope, copies left) next to the map iterator; counted per map entry, in terms of n:
+    the call that fetches the entry yields one copy and leaves K = n - c copies in the cursor (only when the
+    guard on n holds), every call that finds a cursor yields one copy and counts it down by one until it hits
+    zero. So an entry is yielded 1 + K times, which is n exactly when c = 1 and the guard is n > 1 (affine
+    counting over the two paths of next(); nothing is executed)."""
+    from common import edges_where
+    nx = [x for x in F.bodies.values() if x.kind != 'Closure' and
+          re.match(r"^<actor::network::NetworkIter<.*> as std::iter::Iterator>::next$", x.path)]
+    if len(nx) != 1:
+        raise AnchorMissing('Iterator::next of NetworkIter (found %d)' % len(nx))
+    ctx.touched(nx[0])
+    b = F.norm(nx[0])
+    sw = self_variant_switch(b)
+    edges = sw.edges_for('UnorderedNonDuplicating')
+    if not edges:
+        raise AnchorMissing('%s: arm UnorderedNonDuplicating' % b.path)
+    arm = b.reach([e[1] for e in edges])
+    cur = [x for x in b.switches if x.bb in arm and x.kind == 'variant' and x.edges_for('Some') and x.edges_for('None')
+           and noref(x.on).kind == 'arg' and 'as UnorderedNonDuplicating' in noref(x.on).projs]
+    if len(cur) != 1:
+        raise AnchorMissing('%s: the test of the copies-left cursor in the non-duplicating arm (found %d)' %
+                            (b.path, len(cur)))
+    cur = cur[0]
+    cur_place = noref(cur.on)
+    n_pre = len(cur_place.projs)
+
+    def is_left(v):
+        v = noref(v)
+        return v.kind == 'arg' and tuple(v.projs[:n_pre]) == tuple(cur_place.projs) and \
+            tuple(v.projs[n_pre:n_pre + 1]) == ('as Some',) and len(v.projs) > n_pre + 1
+
+    def is_count(v):
+        from taint import vals_of
+        vs = vals_of(b, noref(v))
+
+        def one(v):
+            v = noref(v)
+            c = b.call_at(v.key) if v.kind == 'call' else None
+            return c is not None and c.is_('Iterator::next') and c.bb in arm and v.fields()[-1:] == ('.1',)
+        return bool(vs) and all(one(x) for x in vs)
+
+    def const(v, k):
+        while v.kind == 'un':
+            v = v.key[1]
+        return v.kind == 'const' and v.key == k
+
+    def minus_one(v, pred):
+        v = noref(v)
+        return v.kind == 'bin' and v.key[0] in ('Sub', 'SubWithOverflow', 'SubUnchecked') and pred(v.key[1]) and \
+            const(v.key[2], 1)
+    fresh = b.reach([e[1] for e in cur.edges_for('None')])
+    active = b.reach([e[1] for e in cur.edges_for('Some')], cut_blocks=[cur.bb])
+    # -- the fetching call: what is left in the cursor
+    offs = []
+    for (i, si, st) in b.assigns(lambda st: st['rv']['k'] == 'agg' and st['rv'].get('variant') == 'Some' and
+                                 len(st['rv']['ops']) == 1):
+        if i not in fresh or st['lhs']['l'] == 0:
+            continue
+        tv = b.val(st['rv']['ops'][0])
+        if tv.kind != 'agg' or tv.key[0] != 'tuple':
+            continue
+        for comp in tv.key[3]:
+            if is_count(comp):
+                offs.append((i, 0))
+            elif minus_one(comp, is_count):
+                offs.append((i, 1))
+    gt1 = edges_where(b, is_count, lambda v: const(v, 1), 'gt') + edges_where(b, is_count, lambda v: const(v, 2), 'ge')
+    ok = bool(offs) and all(o == 1 for (i, o) in offs)
+    ctx.check(ok, rule, 'fetch-leaves-count-minus-one', b,
+              good='the call that yields the first copy of an entry leaves count - 1 copies in the cursor',
+              bad='%s: the call that yields the first copy of an envelope held n times leaves %s copies in the cursor, '
+                  'not n - 1: iter_all yields the envelope n + 1 times and disagrees with len() and the contents' %
+                  (b.path, 'n' if offs else 'an unrecognised number of'))
+    okg = bool(offs) and bool(gt1) and all(b.edges_dominate(gt1, i) for (i, o) in offs)
+    ctx.check(okg, rule, 'cursor-only-for-more-than-one', b,
+              good='a cursor is only left behind for an entry held more than once',
+              bad='%s: a cursor is left behind although no copy is left (the guard is not `count > 1`): the next '
+                  'call counts down from zero' % b.path)
+    # -- the calls that find a cursor: one copy each, counted down by one, dropped at zero
+    decs = [i for (i, si, st) in b.assigns(lambda st: bool(st['lhs']['p']))
+            if i in active and is_left(b.place_val(st['lhs'])) and
+            st['rv']['k'] in ('use', 'bin') and minus_one(
+                b.val(st['rv']['op']) if st['rv']['k'] == 'use' else
+                V('bin', (st['rv']['op'], b.val(st['rv']['a']), b.val(st['rv']['b']))), is_left)]
+    resets = [i for (i, si, st) in b.assigns(lambda st: st['lhs']['p'] == ['deref'] and st['rv']['k'] == 'use')
+              if i in active and noref(b.local_val(st['lhs']['l'])) == cur_place and
+              b.val(st['rv']['op']).kind == 'agg' and b.val(st['rv']['op']).key[2] == 'None']
+    okd = False
+    if len(decs) == 1 and resets:
+        d = decs[0]
+        after = [(bb, es) for (bb, es) in edges_where(b, is_left, lambda v: const(v, 0), 'eq', with_blocks=True)
+                 if bb in active and (bb == d or b.dominates(d, bb))]
+        before = [(bb, es) for (bb, es) in edges_where(b, is_left, lambda v: const(v, 1), 'eq', with_blocks=True)
+                  if bb in active and b.dominates(bb, d) and bb != d]
+        for (bb, es) in after:
+            if all(b.edges_dominate(es, r) for r in resets):
+                okd = True
+        for (bb, es) in before:
+            if all(b.edges_dominate(es, r) for r in resets) and d not in b.reach([e[1] for e in es]):
+                okd = True
+    if not okd and not decs:
+        # the cursor is rewritten as a whole: `*active = (left - 1 != 0).then_some((env, left - 1))`
+        def option_defs(l, depth=0):
+            out = []
+            for d in [d for d in b.defs.get(l, []) if d[1] != 'call' and not d[2]['lhs']['p']]:
+                rv = d[2]['rv']
+                if rv['k'] == 'agg' and rv.get('adt', '').endswith('option::Option'):
+                    out.append((d[0], rv))
+                elif rv['k'] == 'use' and rv['op'].get('k') in ('copy', 'move') and not rv['op']['place']['p'] and depth < 4:
+                    out += option_defs(rv['op']['place']['l'], depth + 1)
+                else:
+                    out.append((d[0], None))
+            return out
+        stores = [(i, st) for (i, si, st) in b.assigns(lambda st: st['lhs']['p'] == ['deref'] and st['rv']['k'] == 'use')
+                  if i in active and noref(b.local_val(st['lhs']['l'])) == cur_place and
+                  st['rv']['op'].get('k') in ('copy', 'move')]
+
+        def is_next_left(v):
+            return minus_one(v, is_left)
+        more = edges_where(b, is_next_left, lambda v: const(v, 0), 'ne') + edges_where(b, is_left, lambda v: const(v, 1), 'ne') + \
+            edges_where(b, is_left, lambda v: const(v, 1), 'gt')
+        done = edges_where(b, is_next_left, lambda v: const(v, 0), 'eq') + edges_where(b, is_left, lambda v: const(v, 1), 'eq') + \
+            edges_where(b, is_left, lambda v: const(v, 1), 'le')
+        okd = bool(stores)
+        seen_some = seen_none = False
+        for (i, st) in stores:
+            for (bb, rv) in option_defs(st['rv']['op']['place']['l']):
+                if rv is None:
+                    okd = False
+                elif rv.get('variant') == 'None':
+                    seen_none = True
+                    okd = okd and bool(done) and b.edges_dominate(done, bb)
+                else:
+                    seen_some = True
+                    tv = b.val(rv['ops'][0])
+                    comps = tv.key[3] if tv.kind == 'agg' and tv.key[0] == 'tuple' else ()
+                    okd = okd and any(is_next_left(c_) for c_ in comps) and bool(more) and b.edges_dominate(more, bb)
+        okd = okd and seen_some and seen_none
+    nones = [i for (i, si, st) in b.assigns(lambda st: st['lhs']['l'] == 0 and not st['lhs']['p'] and
+                                            st['rv']['k'] == 'agg' and st['rv'].get('variant') == 'None') if i in active]
+    ctx.check(okd and not nones, rule, 'cursor-counts-down-to-zero', b,
+              good='every call that finds a cursor yields a copy, counts it down by one and drops it at zero',
+              bad='%s: the copies-left cursor is not counted down by exactly one per yielded copy and dropped when it '
+                  'reaches zero' % b.path)
+
+
+def r7_who_changes_the_network(ctx, F, rule='C07-R7'):
+    """Messages leave the network only by a delivery or an explicit drop, and enter it only by a send: in
+    ActorModel::next_state the `&mut` of the next state's network goes to Network::on_deliver in the Deliver arm
+    and to Network::on_drop in the Drop arm only (sends happen inside process_commands); no other arm - a crash,
+    a timeout, a random choice - hands the network to anything that could change it, or overwrites it."""
+    from actor_rules import NextState
+    from common import stores_to_field
+    ns = NextState(F)
+    b = ns.b
+    ctx.touched(b)
+    allowed = {'Deliver': ('Network::on_deliver',), 'Drop': ('Network::on_drop',)}
+    arms = {}
+    for v in ns.variants:
+        arms[v] = ns.arm(v)[0]
+    if not {'Deliver', 'Drop', 'Crash', 'Timeout'} <= set(arms):
+        raise AnchorMissing('next_state: arms %s' % sorted(arms))
+    takers = []
+    for c in b.calls:
+        for a in c.args:
+            if a.get('k') not in ('copy', 'move') or a['place']['p']:
+                continue
+            ty = b.locals[a['place']['l']]['ty']
+            if re.match(r"^&(\'\w+ )?mut actor::network::Network<", ty):
+                takers.append(c)
+            elif re.match(r"^&(\'\w+ )?mut ", ty):
+                # (part of) the network handed out mutably: a helper that was inlined, a field of the enum
+                av = noref(b.trace(b.val(a), ('DerefMut::deref_mut', 'IndexMut::index_mut')))
+                if '.network' in av.fields():
+                    takers.append(c)
+    stores = [i for (i, st) in stores_to_field(b, 'network')]
+    for v in sorted(arms):
+        exclusive = set(arms[v])
+        for o in arms:
+            if o != v:
+                exclusive -= set(arms[o])
+        bad = [c for c in takers if c.bb in exclusive and not c.is_(*allowed.get(v, ('\0never',)))]
+        badst = [i for i in stores if i in exclusive]
+        ctx.check(not bad and not badst, rule, 'network-untouched-or-own-operation@%s' % v, b,
+                  good='the %s arm changes the network only through %s' % (v, list(allowed.get(v, ())) or 'nothing (sends '
+                                                                            'go through process_commands)'),
+                  bad='next_state: the %s arm hands `&mut network` to %s%s: messages appear or disappear in a step that '
+                      'is neither a send, a delivery nor an explicit drop' %
+                      (v, sorted(set(c.short for c in bad)), ' and overwrites the network' if badst else ''))
+    # the operations exist where they belong
+    ctx.check(any(c.bb in arms['Deliver'] and c.is_('Network::on_deliver') for c in takers) and
+              any(c.bb in arms['Drop'] and c.is_('Network::on_drop') for c in takers), rule, 'deliver-and-drop-operate', b,
+              good='Deliver consumes through on_deliver, Drop through on_drop',
+              bad='next_state: the Deliver / Drop arm does not apply on_deliver / on_drop to the network')
+    # and process_commands only sends
+    import roles
+    pc = roles.process_commands(F)
+    ctx.touched(pc)
+    pct = [c for c in pc.calls for a in c.args if a.get('k') in ('copy', 'move') and not a['place']['p'] and
+           re.match(r"^&(\'\w+ )?mut actor::network::Network<", pc.locals[a['place']['l']]['ty'])]
+    ctx.check(bool(pct) and all(c.is_('Network::send') for c in pct), rule, 'process-commands-only-sends', pc,
+              good='process_commands changes the network only through Network::send',
+              bad='process_commands hands `&mut network` to %s' % sorted(set(c.short for c in pct if not c.is_('Network::send'))))
 
 
 def r5_initial_contents(ctx, F, rule='C07-R5'):
@@ -458,8 +675,18 @@ def r5_initial_contents(ctx, F, rule='C07-R5'):
         b = F.norm(b0)
         ok = False
         how = ''
+        built = set(st['rv'].get('variant') for (i, si, st) in b.assigns(
+            lambda st: st['rv']['k'] == 'agg' and st['rv'].get('agg') == 'adt' and
+            str(st['rv'].get('adt', '')).endswith('network::Network')))
+        # a duplicating network holds a *set* of envelopes (send is `set.insert(envelope)`): putting every
+        # element into that set, one by one or in bulk, is what send does
+        set_like = built == {'UnorderedDuplicating'}
         for c in b.calls:
-            if c.is_('Network::send') and b.in_cycle(c.bb) and len(c.args) >= 2:
+            if set_like and c.is_('Extend::extend', 'Iterator::collect', 'FromIterator::from_iter') and c.args and \
+                    noref(b.trace(b.val(c.args[-1]), ('IntoIterator::into_iter',))) == V('arg', 1):
+                ok, how = True, 'all of `envelopes` goes into the set of a duplicating network'
+            if (c.is_('Network::send') or (set_like and re.search(r'Hash(ableHash)?Set(::<.*>)?::insert$', c.short)
+                                           is not None)) and b.in_cycle(c.bb) and len(c.args) >= 2:
                 heads = [h for h in b.calls_to('Iterator::next') if b.in_cycle(h.bb) and b.dominates(h.bb, c.bb)]
                 if not heads:
                     continue
@@ -469,6 +696,13 @@ def r5_initial_contents(ctx, F, rule='C07-R5'):
                 src = noref(b.trace(b.val(head.args[0]), ('IntoIterator::into_iter',)))
                 some = b.branch(head, 'Some')
                 r = b.reach([e[1] for e in some], cut_blocks=[c.bb]) if some else {head.bb}
+                if elem and src == V('arg', 1) and head.bb not in r and not c.is_('Network::send'):
+                    # the set that is filled is the one the network is built from
+                    recv = noref(b.trace(b.val(c.args[0]), ('DerefMut::deref_mut', 'Deref::deref')))
+                    held = [noref(b.val(st['rv']['ops'][0])) for (i, si, st) in b.assigns(
+                        lambda st: st['rv']['k'] == 'agg' and st['rv'].get('variant') == 'UnorderedDuplicating')]
+                    if not held or any(h != recv for h in held):
+                        continue
                 if elem and src == V('arg', 1) and head.bb not in r:
                     ok, how = True, 'every element of `envelopes` is sent'
             elif re.search(r'Network::<Msg>::new_\w+$', c.callee) and c.callee != b0.path and c.args:
